@@ -18,6 +18,13 @@ def run():
     chk.add_model("DequeImpl/variant pop_ignores_other_push (must violate)", rd, note="violated: %s" % rd["violated"])
     rd2 = vlib.model_check("DequeImplMC", "DequeImpl_dev2.cfg", expect_ok=False, timeout=900)
     chk.add_model("DequeImpl/variant push_ignores_other_push (must violate)", rd2, note="violated: %s" % rd2["violated"])
+    # claim / creation / release of per-thread producer slots in the FIFO back-end's third-party queue
+    chk.add_model("ProducerSlotImpl (3 threads, first pushes overlapping, slots recycled after thread exit)",
+                  vlib.model_check("ProducerSlotImpl", "ProducerSlotImpl.cfg", timeout=900))
+    for cfg in ("ProducerSlotImpl_dev.cfg", "ProducerSlotImpl_dev_loss.cfg"):
+        rp = vlib.model_check("ProducerSlotImpl", cfg, expect_ok=False, timeout=900)
+        chk.add_model("ProducerSlotImpl/variant claim_by_store, %s (must violate)" % cfg[:-4], rp,
+                      note="violated: %s" % rp["violated"])
     if chk.thorough():
         # unbounded argument for the index queue: inductive invariant checked by Apalache for arbitrary
         # integer range bounds (base case, induction step, invariant implies the property)
@@ -51,9 +58,11 @@ def run():
     vlib.check_histories(chk, "QueueTrace", "QueueTrace.cfg", hist, "c17", batch=300)
     chk.cov["rule"] = ("random concurrent (1-4 OS threads, 6-21 ops) call/return histories on the index "
                        "queue (int, uint32), Michael deque, lockfree fifo/lifo/abp_fifo/abp_lifo back-ends, "
+                       "the FIFO back-end kept across histories with fresh threads whose first enqueues are released together, "
                        "followed by a single-threaded drain; TLC checks linearizability w.r.t. QueueAbs "
                        "(deque order, range order, per-producer FIFO); delays injected at dq.*/ciq.* hooks; "
                        "non-trivial = >=6 calls")
     chk.assumptions += ["sequential consistency in the model (x86-TSO at run time)",
-                        "moodycamel ConcurrentQueue is covered as a black box only"]
+                        "moodycamel ConcurrentQueue: only the producer-slot claim protocol is modelled (ProducerSlotImpl), the rest "
+                        "is covered as a black box"]
     return chk.finish()
